@@ -463,9 +463,46 @@ def p_repr(I, x):
     return repr(x)
 
 
+class SymHash:
+    """hash() of a value that holds solver data: an opaque token that is equal to another
+    token exactly when the hashed values are equal as (frozen)sets / tuples / texts.  Only the
+    contract 'equal values hash equal, hash is a function of the value' is modelled;
+    collisions between unequal values are ignored (a violation that rests on one would not
+    replay natively)."""
+
+    __symex_carrier__ = True
+
+    def __init__(self, kind, content):
+        self.kind, self.content = kind, content
+
+    def __eq__(self, other):
+        if not isinstance(other, SymHash):
+            raise Unsupported("comparison of a symbolic hash with a concrete one")
+        if self.kind != other.kind:
+            return False
+        if self.kind == "set":
+            a, b = self.content, other.content
+            return len(a) == len(b) and all(b.s_contains(x) for x in a)
+        return s_eq(self.content, other.content)
+
+    def __ne__(self, other):
+        return snot(self.__eq__(other))
+
+    __hash__ = None
+
+
 def p_hash(I, x):
+    if isinstance(x, SymSet):
+        return SymHash("set", x)
+    if isinstance(x, tuple) and has_sym(x):
+        return SymHash("tuple", x)
+    if isinstance(x, SSeq):
+        return SymHash("seq", x)
     if is_sym(x):
         raise Unsupported("hash() of symbolic value")
+    f = I.dunder(x, "__hash__")
+    if f is not None:
+        return I.call(f, (x,), {})
     return hash(x)
 
 
@@ -866,9 +903,16 @@ class Interp:
                     needs = True
                 if needs:
                     sh = self.make_shadow(recv)
+            if sh is None and nm in ("__eq__", "__ne__") and args and self.shadow(args[0]) is not None:
+                sh = self.make_shadow(recv)
             if sh is not None:
                 if nm == "__init__":
                     return sh.update(*args, **kwargs)
+                if nm in ("__eq__", "__ne__") and args and isinstance(args[0], dict) and not isinstance(args[0], SymDict):
+                    # C-level dict equality of two dict-subclass instances: compare the shadows
+                    o = self.shadow(args[0])
+                    r = sh.s_equals(o if o is not None else dict(dict.items(args[0])))
+                    return r if nm == "__eq__" else snot(r)
                 return getattr(sh, nm)(*args, **kwargs)
         if nm in ("__init__", "update", "fromkeys", "__or__", "__ior__", "union", "intersection", "difference"):
             conv = []
@@ -1049,6 +1093,11 @@ class Interp:
             has_py = isinstance(init, types.FunctionType) or isinstance(new, (types.FunctionType, staticmethod))
             if has_py and cls.__module__ != "builtins":
                 return cls(*args, **kwargs)
+            if issubclass(cls, dict) and cls is not dict and init is dict.__init__ and new is dict.__new__:
+                # a dict subclass without its own constructor: fill it through the shadow
+                obj = cls.__new__(cls)
+                self.dict_native(obj, "__init__", tuple(args), kwargs, lambda *a, **k: dict.__init__(obj, *a, **k))
+                return obj
             raise Unsupported(f"constructor {cls.__module__}.{cls.__name__} (C) with symbolic argument")
         return cls(*args, **kwargs)
 
